@@ -49,10 +49,16 @@ def _inlinable(facts, caller, call, stop, lambdas):
         return None
     if call.get("virtual"):
         return None
+    receiver = None
     if call.get("ck") == "member":
         o = skip_copies(call.get("obj"))
         if not (isinstance(o, dict) and o.get("k") == "this"):
-            return None
+            # a method of a file-local wrapper class called on a named object (a global slot, a local guard): spliced with `this`
+            # standing for that object
+            if "(anonymous namespace)" in f.name and isinstance(o, dict) and (o.get("k") == "ref" or (o.get("k") == "member" and skip_copies(o.get("base") or {}).get("k") == "this")):
+                receiver = o
+            else:
+                return None
     m = _method_info(facts, f)
     if m is not None:
         # access: 0 public, 1 protected, 2 private (clang AS_* order: public=0, protected=1, private=2)
@@ -66,6 +72,8 @@ def _inlinable(facts, caller, call, stop, lambdas):
             return None
     if f.d.get("kind") in ("ctor", "dtor"):
         return None
+    if receiver is not None:
+        return f, call.get("args", []), receiver
     return f, call.get("args", [])
 
 
@@ -145,7 +153,8 @@ def _flatten_dict(facts, owner, d, stop, depth, ids, active):
         r = _inlinable(facts, owner, call, stop, lambdas)
         if r is None:
             continue
-        callee, args = r
+        receiver = r[2] if len(r) > 2 else None
+        callee, args = r[0], r[1]
         if callee.id in active:
             continue
         cd = copy.deepcopy(callee.d)
@@ -160,6 +169,15 @@ def _flatten_dict(facts, owner, d, stop, depth, ids, active):
             x["id"] += off
             if x.get("inl_value") is not None:
                 x["inl_value"] += off
+        if receiver is not None:
+            # `this` of the wrapper method is the object the method was called on
+            for x in walk(body):
+                if x.get("k") == "this":
+                    keep_id = x["id"]
+                    x.clear()
+                    x.update(copy.deepcopy({k_: v_ for k_, v_ in receiver.items() if k_ not in ("id",)}))
+                    x["id"] = keep_id
+                    x["inl_receiver"] = True
         # returns no longer leave the function
         rets = []
         for x in walk(body):
